@@ -170,6 +170,24 @@ CHECKS = {
         "Trusted: the model's derivation of the expected edges; graphviz dot renders what pydotplus is given.",
         "DESIGN.md 5/C18",
     ),
+    "C06": (
+        "fault_enumeration",
+        "fault injection by enumeration: SIGKILL of a forked victim at EVERY file-system-operation boundary (incl. both halves of each raw "
+        "write) of generated scenarios; oracle: observer / recovery processes vs the reference model",
+        "For each generated scenario the victim's complete boundary trace is enumerated and the process is killed at each boundary from "
+        "an identical copy of the initial store; exhaustive per scenario at the granularity of Python-level os/open calls.",
+        "Trusted: the FS proxy (cross-checked per scenario against an un-proxied run); kill -9 semantics without power-loss reordering.",
+        "DESIGN.md 2.5, 5/C06",
+    ),
+    "C07": (
+        "exploration",
+        "controlled-schedule concurrency testing: forked processes stepped one FS operation at a time by a generated schedule (random "
+        "lists + systematic <=2-preemption enumeration); oracle: per-process values, loads old-or-new, final store == model",
+        "The harness owns the schedule: 2-3 real dds processes on one store are interleaved at file-system-operation granularity; every "
+        "returned keep / load and the final store are compared with the model.",
+        "Trusted: the FS proxy and scheduler; determinism of user functions.",
+        "DESIGN.md 2.5, 5/C07",
+    ),
 }
 
 NOT_YET = {}
